@@ -312,3 +312,7 @@ def run(ctx: Ctx, rep: Report, tier: str):
     split_contract(ctx, rep, "C05.V15")
     _alias(rep, ["C07.R6"], "C05.V16", "the handle a resolver reads is a complete download (C07.R6 for ResolveFile.download): a failed download leaves nothing under the final "
            "temp name that a later attempt would present as the side's content", 2, lambda: _C07(ctx, rep).r6())
+    from rules.common import resolution_bookkeeping
+    rep.rule("C05.V17", "the resolver's verdict is booked: keep -> loser entry CONFLICT with its winner-side half cleared, winner marked unsynced; not keep -> winner half grafted "
+             "onto the loser's entry, the emptied entry discarded, all four sync markers set", 10)
+    resolution_bookkeeping(ctx, rep, "C05.V17")
